@@ -117,6 +117,9 @@ pub struct NakParse {
     pub is_nak: bool,
     pub items: Vec<NakItem>,
     pub well_formed: bool,
+    /// some range's end word carries the marker bit itself (the only malformation that leaves the meaning of
+    /// the list open; a list that merely ends after a range marker is just truncated)
+    pub bad_end: bool,
 }
 
 pub fn nak_items(b: &[u8]) -> NakParse {
@@ -124,6 +127,7 @@ pub fn nak_items(b: &[u8]) -> NakParse {
         is_nak: false,
         items: Vec::new(),
         well_formed: true,
+        bad_end: false,
     };
     if b.len() < 8 || packet_type(b) != Some(T_SRT_NAK) {
         return out;
@@ -143,6 +147,7 @@ pub fn nak_items(b: &[u8]) -> NakParse {
             i += 1;
             if end >> 31 == 1 {
                 out.well_formed = false;
+                out.bad_end = true;
             }
             out.items.push(NakItem::Range(w & 0x7fff_ffff, end));
         } else {
